@@ -559,6 +559,17 @@ theorem C14_member_order_irrelevant (H : Ham) (hw : H.WFc) (f : List Node → Li
    fun a d => iso_counts (LocIso.of_reorder H f hf) hw (WFc_reorder H hw f hf) a d,
    fun t => iso_profile (LocIso.of_reorder H f hf) hw (WFc_reorder H hw f hf) (fun _ => rfl) t⟩
 
+/-- **the numbering of objects does not matter** (self-contained form; C11 "identical to the same family in an unfiltered
+    load ... the position of a selected family in the file does not matter": the creation counter depends on what was
+    loaded or skipped before) -/
+theorem C11_renumbering_irrelevant (H : Ham) (hw : H.WFc) (k : Nat) :
+    (H.renumber k).WFc ∧ LocIso H (H.renumber k) (Node.shift k) ∧
+    (∀ a d, (hogsMap (H.renumber k) a d).counts = (hogsMap H a d).counts) ∧
+    (∀ t, profileFullAt (H.renumber k) t = profileFullAt H t) :=
+  ⟨WFc_renumber H hw k, LocIso.of_renumber H k,
+   fun a d => iso_counts (LocIso.of_renumber H k) hw (WFc_renumber H hw k) a d,
+   fun t => iso_profile (LocIso.of_renumber H k) hw (WFc_renumber H hw k) (fun _ => rfl) t⟩
+
 /-- **the order of the families does not matter** (self-contained form) -/
 theorem C14_family_order_irrelevant (H H' : Ham) (hw : H.WFc) (hp : H'.tops.Perm H.tops) (hg : H'.genes = H.genes)
     (ht : H'.tree = H.tree) (hr : H'.reg = H.reg) :
